@@ -88,7 +88,85 @@ def oracle_int_typed(args):
     return not problems, {"problems": problems[:3]}, {"problems": []}, "; ".join(problems[:2]) or "ok"
 
 
-ORACLES = {"accuracy": oracle_accuracy, "monotone": oracle_monotone, "array": oracle_array, "int_typed": oracle_int_typed}
+@safe_oracle
+def oracle_afssh_factor(args):
+    """the scaling the A-FSSH exponential moment propagator APPLIES, read off the propagated moments: from the pure active state a
+    and zero moments, one advance_delP gives delP[x,i,a] = 1/2 F_ia dt f(i (e_a - e_i) dt) exp(-i (e_i - e_a) dt) with
+    f(z) = (1 - exp(-z))/z; gaps on both sides of the switch and far below it, all in one array; 60-digit reference, 1e-13"""
+    import mpmath as mp
+    mp.mp.dps = 60
+    from . import c11
+    gaps = [float(g) for g in args["gaps"]]
+    dt = float(args["dt"])
+    N = len(gaps) + 1
+    levels = np.concatenate([[0.0], np.array(gaps)])           # active state 0 at the bottom, state i at +gap_i
+    FM = np.zeros((N, N, 1))
+    FM[0, 1:, 0] = np.array(args["F"])
+    FM[1:, 0, 0] = np.array(args["F"])
+    rho = np.zeros((N, N), dtype=np.complex128)
+    rho[0, 0] = 1.0
+    c = dict(N=N, n=1, H0=np.diag(levels), H1=np.diag(levels), d0=np.zeros((N, N, 1)), d1=np.zeros((N, N, 1)), v0=np.array([0.01]),
+             v1=np.array([0.01]), rho=rho, dt=dt, mass=np.array([2000.0]), FM=FM, state=0)
+    t = c11._afssh(c, "exp")
+    t.state = 0
+    t.delR = np.zeros((1, N, N), dtype=np.complex128)
+    t.delP = np.zeros((1, N, N), dtype=np.complex128)
+    e0, e1 = c11._elecs(c)
+    t.advance_delP(e0, e1)
+    problems, worst = [], 0.0
+    for i in range(1, N):
+        z = mp.mpc(0, -gaps[i - 1] * dt)                      # i (e_a - e_i) dt with e_a = 0
+        want = (1 - mp.exp(-z)) / z if gaps[i - 1] != 0.0 else mp.mpf(1)
+        phase = mp.exp(mp.mpc(0, -gaps[i - 1] * dt))          # exp(-i (e_i - e_a) dt)
+        got = mp.mpc(complex(t.delP[0, i, 0])) / (mp.mpf(0.5) * mp.mpf(float(args["F"][i - 1])) * mp.mpf(dt) * phase)
+        err = float(abs(got - want) / abs(want))
+        worst = max(worst, err)
+        if err > 1e-13:
+            problems.append("gap x dt = %.3g: the propagator applied f = %s, (1-exp(-z))/z = %s (relative error %.3g)"
+                            % (gaps[i - 1] * dt, mp.nstr(got, 17), mp.nstr(want, 17), err))
+    return not problems, {"worst_relative_error": worst, "problems": problems[:3]}, {"max_relative_error": 1e-13}, \
+        "; ".join(problems[:2]) or "ok"
+
+
+@safe_oracle
+def oracle_after_library_use(args):
+    """the function's value at zero (and on arrays that contain zeros) does not depend on what else the library did before in the
+    same process: after models have been evaluated in both representations and short runs have been made, f(0) = 1, f of a mixed
+    array is what it is on a fresh interpreter, and numpy's floating-point error handling is what it was"""
+    import mudslide
+    from mudslide.math import poisson_prob_scale
+    before = dict(np.geterr())
+    problems = []
+    try:
+        ref = np.array(poisson_prob_scale(np.array([0.0, 1e-9, 1e-3, 0.5, 0.0, 3.0])))
+        for name in args["models"]:
+            for rep in ("adiabatic", "diabatic"):
+                m = mudslide.models.scattering_models[name](representation=rep)
+                e = m.update(np.array([0.3] * m.ndim()))
+                m.update(np.array([0.31] * m.ndim()), electronics=e)
+        m = mudslide.models.scattering_models[args["models"][0]](representation="diabatic")
+        t = mudslide.TrajectorySH(m, [-1.0], [15.0], 0, dt=5.0, max_steps=4, hopping_probability="poisson", zeta_list=[1.0] * 10, seed_sequence=1)
+        t.simulate()
+        t = mudslide.Ehrenfest(mudslide.models.scattering_models[args["models"][0]](), [-1.0], [15.0], 0, dt=5.0, max_steps=4, seed_sequence=1)
+        t.simulate()
+        for z in (0.0, 0, 0j, np.float64(0.0), np.zeros(3), np.array([0.0, 1e-9, 1e-3, 0.5, 0.0, 3.0])):
+            try:
+                v = np.asarray(poisson_prob_scale(z))
+            except Exception as e:  # noqa
+                problems.append("poisson_prob_scale(%r) raised %s: %s after the library was used" % (z, type(e).__name__, e))
+                continue
+            want = ref if np.ndim(z) == 1 and np.size(z) == 6 else np.ones(np.shape(z))
+            if not np.array_equal(np.asarray(v, dtype=np.complex128), np.asarray(want, dtype=np.complex128)):
+                problems.append("poisson_prob_scale(%r) = %r after the library was used, %r before" % (z, v.tolist(), np.asarray(want).tolist()))
+        after = dict(np.geterr())
+        if after != before:
+            problems.append("numpy's floating-point error handling was changed by the library: %r -> %r" % (before, after))
+    finally:
+        np.seterr(**before)
+    return not problems, {"problems": problems[:3]}, {"problems": []}, "; ".join(problems[:2]) or "ok"
+
+
+ORACLES = {"afssh_factor": oracle_afssh_factor, "after_library_use": oracle_after_library_use, "accuracy": oracle_accuracy, "monotone": oracle_monotone, "array": oracle_array, "int_typed": oracle_int_typed}
 
 
 def _gen_real(ctx, n):
@@ -142,6 +220,24 @@ def run(ctx):
     ]
     ctx.fingerprints["mudslide/math.py"] = fingerprint("mudslide/math.py", ["poisson_prob_scale"])
     ctx.proofs()
+    rng = ctx.rng
+    for i in range(ctx.budget(6, 100)):
+        ng = int(rng.integers(4, 10))
+        gaps = sorted(set([float(10 ** rng.uniform(-14, 1)) for _ in range(ng)] + [9.9e-4, 1.01e-3]))
+        a = {"gaps": gaps, "dt": float(rng.choice([1.0, 0.37, 5.0])), "F": [float(rng.uniform(0.01, 0.1)) for _ in gaps]}
+        ok, obs, req, text = oracle_afssh_factor(a)
+        ctx.case(("afssh-factor", len(gaps)))
+        ctx.count("afssh_factor_gaps", len(gaps))
+        ctx.monitor("worst_afssh_applied_factor_error", float(obs.get("worst_relative_error", 0.0)))
+        if not ok:
+            ctx.oracle_fail("afssh-applied-scaling", "afssh_factor", a, obs, req, text)
+    for ms in (["simple", "dual"], ["super", "extended"]):
+        a = {"models": ms}
+        ok, obs, req, text = oracle_after_library_use(a)
+        ctx.case(("after-library-use", tuple(ms)))
+        ctx.count("after_library_use")
+        if not ok:
+            ctx.oracle_fail("value-depends-on-process-state", "after_library_use", a, obs, req, text)
     f = _impl()
 
     # --- self-test of the model's expm1 ---
